@@ -15,6 +15,15 @@ Theorem C20_one_run_per_line : forall c tmpl args,
 Proof. exact replace_one_run_per_line. Qed.
 Print Assumptions C20_one_run_per_line.
 
+(* Each line is run as soon as it has been read - one invocation per line, in order, holding that line alone - and a failure of the
+   reader after some lines ([ie]: an unterminated quote, a read error) does not take their runs away: the invocations made are
+   exactly the lines before it (up to the first fatal child outcome), the status is then 1. *)
+Theorem C20_each_line_when_read : forall c tmpl args ie st, c_replace c = true ->
+  Forall (fun a => exists ls', try_arg tmpl a = Acc ls') args ->
+  process_x c tmpl tmpl [] false args ie st = finish_lines ie (exec_all c st (map (fun a => [a]) args)).
+Proof. intros c tmpl args ie st H. exact (replace_eager c tmpl H args ie st). Qed.
+Print Assumptions C20_each_line_when_read.
+
 (* Every (leftmost, non-overlapping) occurrence of R is replaced by the line and all other text
    is unchanged: [Repl] is the declarative reading. *)
 Theorem C20_replace_all : forall R line s, R <> [] -> Repl R line s (str_replace R line s).
